@@ -27,3 +27,20 @@ Definition agree_C03 (a b : out) : bool :=
   list_eqb (pair_eqb N.eqb (list_eqb (pair_eqb N.eqb st_eqb)))
            (map proj_group_C03 (groups_of' a)) (map proj_group_C03 (groups_of' b))
   && option_eqb st_eqb (o_pc_stages a) (o_pc_stages b).
+
+(** C15 / C14 / C13 / C12 read whole sections *)
+Definition agree_C15 (a b : out) : bool := list_eqb const_eqb (o_consts a) (o_consts b).
+Definition agree_C14 (a b : out) : bool :=
+  list_eqb ss_eqb (o_entry_consts a) (o_entry_consts b)
+  && list_eqb compute_eqb (o_compute a) (o_compute b)
+  && list_eqb fentry_eqb (o_fentries a) (o_fentries b)
+  && list_eqb ventry_eqb (o_ventries a) (o_ventries b)
+  && Bool.eqb (o_vertex_tpl a) (o_vertex_tpl b) && Bool.eqb (o_fragment_tpl a) (o_fragment_tpl b).
+Definition agree_C13 (a b : out) : bool :=
+  option_eqb st_eqb (o_pc_stages a) (o_pc_stages b) && list_eqb pc_range_eqb (o_pc_ranges a) (o_pc_ranges b).
+Definition agree_C12 (a b : out) : bool :=
+  option_eqb overrides_eqb (o_overrides a) (o_overrides b)
+  && list_eqb (pair_eqb Bool.eqb Bool.eqb) (map (fun v => (ve_ov_param v, ve_ov_used v)) (o_ventries a))
+                                           (map (fun v => (ve_ov_param v, ve_ov_used v)) (o_ventries b))
+  && list_eqb (pair_eqb Bool.eqb Bool.eqb) (map (fun v => (fe_ov_param v, fe_ov_used v)) (o_fentries a))
+                                           (map (fun v => (fe_ov_param v, fe_ov_used v)) (o_fentries b)).
